@@ -188,12 +188,19 @@ class Analyzer:
     """One function, one run.  Subclass or pass hooks to specialise."""
 
     def __init__(self, P, F, hooks=None, field_inv=None, param_init=None, partition=None, thresholds=None,
-                 uninit_summaries=False, entry_zero=None, widen_delay=2):
+                 uninit_summaries=False, entry_zero=None, widen_delay=2, unroll=0):
         self.P, self.F = P, F
         self.uninit_summaries = uninit_summaries
         self.entry_zero = entry_zero or ()      # path prefixes holding zero at function entry
         self.widen_delay = widen_delay
         self.escalate = True
+        self.unroll = unroll                    # iteration partitioning: the first `unroll` iterations of a loop are kept apart
+        self.loop_entry = {}                    # loop header -> env joined over the loop's entry edges
+        self.acc_c = {}                         # accumulate statement -> largest increment seen
+        self.lemmas_used = set()
+        self.last_index = (None, None)
+        self.param_elems = {}                   # 'v<param id>' -> element invariant of the memory the pointer designates
+        self.sumq = {}                          # (increment canon, bound canon) -> bound of a named sum (k4dec)
         self.hooks = hooks
         self.field_inv = field_inv or {}      # (record, field, elem:bool) -> V   assumed for memory not written here
         self.param_init = param_init or {}
@@ -216,6 +223,7 @@ class Analyzer:
         self.ret_states = []    # (ret eid, env, value) at return statements (final pass)
         self.loops = cfg.loops(F)
         self.iterations = 0
+        self.acc_info = self._accumulators()
 
     # -- helpers ----------------------------------------------------------------------------------
     def _constants(self):
@@ -328,6 +336,237 @@ class Analyzer:
             return i['k'] == 'int' and self._pure_path(nd['c'][0], depth + 1)
         return False
 
+    # -- accumulator lemma -------------------------------------------------------------------------
+    def _accumulators(self):
+        """Loops `for(i=i0; i<N; i++)` with a loop-invariant bound N, and local integer variables that such loops only
+        ever increase by `a += e` / `a++`.  Lemma (DESIGN 3.3/K4): inside and after the loops
+        a <= a_at_entry + sum over accumulate statements s of max(0,hi(e_s)) * (product of trip counts of the loops
+        around s).  Returns {stmt eid: (var id, [loop headers inner..outer], outermost header)}."""
+        F = self.F
+        self.acc_headers, self.acc_keys, self.ind = set(), set(), {}
+        if not self.loops:
+            return {}
+        # innermost loop of each block
+        inner = {}
+        for h, body in self.loops.items():
+            for b in body:
+                if b not in inner or len(self.loops[h]) < len(self.loops[inner[b]]):
+                    inner[b] = h
+        # modifications of local scalars: var id -> [(eid, block, kind, inc expr or None)]
+        mods, addr = {}, set()
+        for n, (b, _) in F.pos.items():
+            nd = F.ex[n]
+            tgt, kind, inc = None, None, None
+            if nd['k'] == 'assign':
+                tgt = nd['c'][0]
+                if nd['op'] == '+=':
+                    kind, inc = 'acc', nd['c'][1]
+                elif nd['op'] == '=':
+                    r = F.ex[F.strip_casts(nd['c'][1])]
+                    l = F.ex[F.strip_casts(nd['c'][0])]
+                    if r['k'] == 'bin' and r['op'] == '+' and l['k'] == 'ref':
+                        x, y = (F.ex[F.strip_casts(c)] for c in r['c'])
+                        if x['k'] == 'ref' and x['decl'].get('id') == l['decl'].get('id'):
+                            kind, inc = 'acc', r['c'][1]
+                        elif y['k'] == 'ref' and y['decl'].get('id') == l['decl'].get('id'):
+                            kind, inc = 'acc', r['c'][0]
+                    kind = kind or 'set'
+                else:
+                    kind = 'set'
+            elif nd['k'] == 'un' and nd['op'] in ('pre++', 'post++'):
+                tgt, kind = nd['c'][0], 'inc'
+            elif nd['k'] == 'un' and nd['op'] in ('pre--', 'post--'):
+                tgt, kind = nd['c'][0], 'set'
+            elif nd['k'] == 'un' and nd['op'] == '&':
+                l = F.ex[F.strip_casts(nd['c'][0])]
+                if l['k'] == 'ref' and l['decl']['kind'] in ('var', 'param'):
+                    addr.add(l['decl']['id'])
+                continue
+            elif nd['k'] == 'decl':
+                for v in nd['vars']:
+                    if 'id' in v:
+                        mods.setdefault(v['id'], []).append((n, b, 'set', None))
+                continue
+            if tgt is None:
+                continue
+            l = F.ex[F.strip_casts(tgt)]
+            if l['k'] == 'ref' and l['decl']['kind'] in ('var', 'param') and int_type_range(l.get('t', '')):
+                mods.setdefault(l['decl']['id'], []).append((n, b, kind, inc))
+        # induction variables
+        for h in self.loops:
+            t = F.blocks[h].get('term')
+            if not t or t.get('cond') is None or len(F.blocks[h]['succs']) != 2:
+                continue
+            tr, fa = F.blocks[h]['succs']
+            if tr not in self.loops[h] or fa in self.loops[h]:
+                continue
+            c = F.ex[F.strip_casts(t['cond'])]
+            if c['k'] != 'bin' or c['op'] not in ('<', '<='):
+                continue
+            iv = F.ex[F.strip_casts(c['c'][0])]
+            if iv['k'] != 'ref' or iv['decl']['kind'] not in ('var', 'param') or iv['decl']['id'] in addr:
+                continue
+            vid = iv['decl']['id']
+            inl = [m for m in mods.get(vid, []) if m[1] in self.loops[h]]
+            if len(inl) != 1 or inl[0][2] != 'inc' or inner.get(inl[0][1]) != h:
+                continue
+            if not self._invariant_in(h, c['c'][1], mods, addr):
+                continue
+            self.ind[h] = (vid, c['c'][1], 1 if c['op'] == '<=' else 0)
+        out = {}
+
+        def parent(h):
+            par = None
+            for h2, body in self.loops.items():
+                if h2 != h and h in body and self.loops[h] < body:
+                    if par is None or len(body) < len(self.loops[par]):
+                        par = h2
+            return par
+        for vid, ms in mods.items():
+            if vid in addr:
+                continue
+            if any(self.ind.get(h, (None,))[0] == vid for h in self.loops):
+                continue
+            for (n, b, kind, inc) in ms:
+                if b not in inner or kind not in ('acc', 'inc'):
+                    continue
+                chain = []
+                h = inner[b]
+                while h is not None:
+                    chain.append(h)
+                    h = parent(h)
+                # the largest enclosing loop inside which the variable is only ever increased
+                keep = []
+                for h in chain:
+                    if any(m[2] == 'set' for m in ms if m[1] in self.loops[h]):
+                        break
+                    keep.append(h)
+                chain = keep
+                if not chain:
+                    continue
+                hout = chain[-1]
+                if any(h not in self.ind for h in chain):
+                    continue
+                out[n] = (vid, chain, hout, inc)
+        for n, (vid, chain, hout, inc) in out.items():
+            self.acc_headers.add(hout)
+            self.acc_keys.add(f'v{vid}')
+            for h in chain:
+                self.acc_headers.add(h)
+                self.acc_keys.add(f'v{self.ind[h][0]}')
+        return out
+
+    def _invariant_in(self, h, e, mods, addr):
+        """is expression e unchanged by the natural loop of header h?"""
+        F = self.F
+        body = self.loops[h]
+        stored_fields, calls = set(), []
+        for n, (b, _) in F.pos.items():
+            if b not in body:
+                continue
+            nd = F.ex[n]
+            tgt = None
+            if nd['k'] == 'assign':
+                tgt = nd['c'][0]
+            elif nd['k'] == 'un' and nd['op'] in ('pre++', 'post++', 'pre--', 'post--'):
+                tgt = nd['c'][0]
+            elif nd['k'] == 'call':
+                calls.append(n)
+            if tgt is not None:
+                mk = self.member_key(tgt)
+                if mk:
+                    stored_fields.add((mk[0], mk[1]))
+                l = F.ex[F.strip_casts(tgt)]
+                if l['k'] == 'un' and l['op'] == '*':
+                    stored_fields.add(('*', '*'))
+        for n in F.walk(e):
+            nd = F.ex[n]
+            k = nd['k']
+            if k in ('int', 'cast') or (k == 'bin' and nd['op'] in ('+', '-', '*', '>>', '<<', '/')):
+                continue
+            if k == 'ref' and nd['decl']['kind'] in ('var', 'param'):
+                vid = nd['decl']['id']
+                if vid in addr and not nd.get('t', '').endswith('*'):
+                    return False
+                if any(m[1] in body for m in mods.get(vid, [])):
+                    if vid in self.alias:
+                        continue
+                    return False
+                continue
+            if k == 'member' and 'record' in nd:
+                if (nd['record'], nd['field']) in stored_fields or ('*', '*') in stored_fields:
+                    return False
+                for c in calls:
+                    for t in self.P.call_targets(F, c):
+                        if t.startswith('ext:'):
+                            import k3
+                            if t[4:] in k3.EXT_WRITES or t[4:] in k3.EXT_PURE_MATH:
+                                continue
+                            return False
+                        if t.startswith(('cb:', 'unk:')):
+                            return False
+                        E = getattr(self.P, '_effects', None)
+                        sm = E.summ.get(t) if E else None
+                        if sm is None:
+                            return False
+                        if any(r == nd['record'] and f == nd['field'] for (_, r, f) in sm['stores']):
+                            return False
+                continue
+            return False
+        return True
+
+    def trips(self, env, h):
+        """upper bound of the number of iterations of the loop with header h (needs its entry state), or None"""
+        vid, nexp, extra = self.ind[h]
+        ent = self.loop_entry.get(h)
+        if ent is None or f'v{vid}' not in ent:
+            return None
+        i0 = ent[f'v{vid}']
+        nv = self.peek(env, nexp)
+        if i0.lo == -INF or nv.hi == INF:
+            return None
+        return max(0, nv.hi + extra - i0.lo)
+
+    def acc_clamp(self, env, e, key, old, incv, new):
+        info = self.acc_info.get(e)
+        if info is None:
+            return old, new
+        vid, chain, hout, inc = info
+        c = max(0, incv.hi)
+        if c == INF:
+            return old, new
+        self.acc_c[e] = max(self.acc_c.get(e, 0), c)
+        ent = self.loop_entry.get(hout)
+        if ent is None or f'v{vid}' not in ent or ent[f'v{vid}'].hi == INF:
+            return old, new
+        total = 0
+        for n2, (vid2, chain2, hout2, _) in self.acc_info.items():
+            if vid2 != vid or hout2 != hout:
+                continue
+            if n2 not in self.acc_c:
+                return old, new
+            t = 1
+            for h in chain2:
+                th = self.trips(env, h)
+                if th is None:
+                    return old, new
+                t *= th
+            total += self.acc_c[n2] * t
+        bound = ent[f'v{vid}'].hi + total
+        if self.sumq and len(chain) == 1:
+            # a named sum over a set-up structure whose total the unpacker has bounded (k4dec): same operand, same range
+            iv, bexp, extra = self.ind[chain[0]]
+            i0 = (self.loop_entry.get(chain[0]) or {}).get(f'v{iv}')
+            qk = (self.F.s(inc, names=False) if inc else '1', self.F.s(bexp, names=False))
+            q = self.sumq.get(qk)
+            if q is not None and i0 is not None and i0.lo >= 0 and extra == 0 and ent[f'v{vid}'].hi + q < bound \
+                    and sum(1 for x in self.acc_info.values() if x[0] == vid and x[2] == hout) == 1:
+                bound = ent[f'v{vid}'].hi + q
+                self.lemmas_used.add('named-sum ' + qk[0])
+        self.lemmas_used.add('accumulator')
+        return (old.copy(hi=min(old.hi, bound - c)) if old.hi > bound - c else old,
+                new.copy(hi=min(new.hi, bound)) if new.hi > bound else new)
+
     # -- access paths -----------------------------------------------------------------------------
     def path(self, e, env=None):
         """canonical location key of lvalue expression e, or None"""
@@ -430,6 +669,10 @@ class Analyzer:
             if key.startswith(z):
                 return V(0, 0, nn=False)
         v = None
+        if self.param_elems:
+            pk = key[1:] if key.startswith('*') else (key[:key.index('[')] if '[' in key else None)
+            if pk in self.param_elems and (key.startswith('*') or key.count('[') == 1 and key.endswith(']')):
+                return self.param_elems[pk]
         info = self.keyinfo.get(key)
         if info is None and e is not None:
             info = (self.member_key(e), int_type_range(self.ex[e].get('t', '')))
@@ -486,6 +729,14 @@ class Analyzer:
             return
         # symbolic name of the location (type based for fields, variable name for locals)
         sym = self.symbol(key, e)
+        if sym is None and e is not None:
+            mk = self.member_key(e)
+            if mk and mk[2]:
+                pre = f'{mk[0]}.{mk[1]}['
+                for k_, v_ in list(env.items()):
+                    if isinstance(v_, V) and (any(x.startswith(pre) for x in v_.lt) or any(x.startswith(pre) for x in v_.le)):
+                        env[k_] = v_.copy(lt=frozenset(x for x in v_.lt if not x.startswith(pre)),
+                                          le=frozenset(x for x in v_.le if not x.startswith(pre)))
         if sym:
             self.kill_symbol(env, sym)
             sv = dict(env.get('$sym') or {})
@@ -535,9 +786,22 @@ class Analyzer:
         if key.startswith('v') and key[1:].isdigit():
             return key
         if e is not None:
-            mk = self.member_key(e)
-            if mk and not mk[2]:
-                return f'{mk[0]}.{mk[1]}'
+            return self._field_sym(e)
+        return None
+
+    def _field_sym(self, e):
+        """symbol of a struct field lvalue: `rec.field`, or `rec.field[c]` for a constant-indexed element of an array field"""
+        mk = self.member_key(e)
+        if not mk:
+            return None
+        if not mk[2]:
+            return f'{mk[0]}.{mk[1]}'
+        nd = self.ex[self.F.strip_casts(e)]
+        if nd['k'] == 'sub':
+            b = self.ex[self.F.strip_casts(nd['c'][0])]
+            i = self.ex[self.F.strip_casts(nd['c'][1])]
+            if b['k'] == 'member' and i['k'] == 'int':
+                return f'{mk[0]}.{mk[1]}[{i["v"]}]'
         return None
 
     def havoc_reachable(self, env, prefix):
@@ -596,9 +860,11 @@ class Analyzer:
                 v = v.copy(le=v.le | {key})
             return v
         if k in ('member', 'sub') or (k == 'un' and nd['op'] == '*'):
-            for x in c:
+            for i_, x in enumerate(c):
                 if x:
-                    self.ev(env, x)
+                    xv = self.ev(env, x)
+                    if k == 'sub' and i_ == 1:
+                        self.last_index = (e, xv)
             if nd.get('t', '').endswith(']'):
                 return V(nn=True)
             key = self.path(e, env)
@@ -622,6 +888,8 @@ class Analyzer:
                 d = 1 if '++' in op else -1
                 new = self.arith('+', old, K(d))
                 key = self.path(c[0], env)
+                if d == 1 and e in self.acc_info:
+                    old, new = self.acc_clamp(env, e, key, old, K(1), new)
                 self.store(env, key, new, c[0])
                 return new if op.startswith('pre') else old
             v = self.ev(env, c[0])
@@ -652,7 +920,10 @@ class Analyzer:
             rhs = self.ev(env, c[1])
             if op != '=':
                 lhs = self.ev(env, c[0])
+                inc = rhs
                 rhs = self.arith(op[:-1], lhs, rhs, nd)
+                if e in self.acc_info:
+                    _, rhs = self.acc_clamp(env, e, None, lhs, inc, rhs)
             else:
                 # evaluate sub-expressions of the target (index expressions may have effects)
                 self._ev_lvalue_children(env, c[0])
@@ -748,7 +1019,7 @@ class Analyzer:
                 self._ev_lvalue_children(env, nd['c'][0])
             else:
                 self.ev(env, nd['c'][0])
-            self.ev(env, nd['c'][1])
+            self.last_index = (e, self.ev(env, nd['c'][1]))
         if self.final and nd['k'] in ('sub', 'member') or (self.final and nd['k'] == 'un'):
             for ob in self.observers:
                 ob(self, env, e, None)
@@ -1113,10 +1384,8 @@ class Analyzer:
             if 'extent' in nd['decl']:
                 return None
             return f'v{nd["decl"]["id"]}'
-        if nd['k'] == 'member':
-            mk = self.member_key(e)
-            if mk and not mk[2]:
-                return f'{mk[0]}.{mk[1]}'
+        if nd['k'] in ('member', 'sub'):
+            return self._field_sym(e)
         return None
 
     @staticmethod
@@ -1136,6 +1405,8 @@ class Analyzer:
             return a_lt_b
         if op == '==':
             return a_lt_b or b_lt_a
+        if op == '!=':
+            return a_le_b and b_le_a and not a_lt_b and not b_lt_a
         return False
 
     def restrict(self, v, op, w, wsym):
@@ -1238,6 +1509,15 @@ class Analyzer:
             sv = dict(env.get('$sym') or {})
             sv[sym] = new
             env['$sym'] = sv
+            # whatever is bounded by this location is bounded by its new upper limit
+            if new.hi != INF and (old is None or new.hi < old.hi):
+                for k2, v2 in list(env.items()):
+                    if not isinstance(v2, V) or k2 == key:
+                        continue
+                    if sym in v2.lt and v2.hi > new.hi - 1:
+                        env[k2] = v2.copy(hi=new.hi - 1)
+                    elif sym in v2.le and v2.hi > new.hi:
+                        env[k2] = v2.copy(hi=new.hi)
             # transitive closure: whatever is bounded by this location inherits its new upper bounds
             add_lt = (new.lt - (old.lt if old else frozenset()))
             add_le = (new.le - (old.le if old else frozenset())) - {sym}
@@ -1408,7 +1688,10 @@ class Analyzer:
 
     # -- fixpoint ---------------------------------------------------------------------------------
     def pkey(self, env):
-        return self.partition(self, env) if self.partition else ()
+        pk = self.partition(self, env) if self.partition else ()
+        if self.unroll:
+            return (pk, env.get('$it', 0))
+        return pk
 
     def initial_env(self):
         env = Env()
@@ -1559,6 +1842,7 @@ class Analyzer:
                         continue
                     if self.hooks and self.hooks.on_edge:
                         self.hooks.on_edge(self, e2, cond, truth)
+                    self._edge(b, s, e2)
                     self._emit(outs, s, e2, keep_tmp=(kind in ('cond', 'and', 'or')), cond=cond)
             elif kind == 'switch' and cond is not None:
                 v = self.peek(env, cond)
@@ -1573,12 +1857,33 @@ class Analyzer:
                         if v.lo > cv or v.hi < cv:
                             continue
                         self.assign_refined(e2, cond, v, v.copy(lo=cv, hi=cv))
+                    self._edge(b, s, e2)
                     self._emit(outs, s, e2)
             else:
                 for s in succs:
                     if s is not None:
-                        self._emit(outs, s, env.copy(), keep_tmp=(kind in ('cond', 'and', 'or')) or not term)
+                        e2 = env.copy()
+                        self._edge(b, s, e2)
+                        self._emit(outs, s, e2, keep_tmp=(kind in ('cond', 'and', 'or')) or not term)
         return outs
+
+    def _edge(self, b, s, env):
+        """bookkeeping on CFG edge b->s: loop entry states (for the accumulator lemma), iteration counter"""
+        if s in self.loops:
+            if b in self.loops[s]:
+                if self.unroll:
+                    it = env.get('$it', 0)
+                    if it < self.unroll:
+                        env['$it'] = it + 1
+            elif s in self.acc_headers:
+                snap = {k: v for k, v in env.items() if isinstance(k, str) and k in self.acc_keys and isinstance(v, V)}
+                old = self.loop_entry.get(s)
+                if old is None:
+                    self.loop_entry[s] = snap
+                else:
+                    for k in set(old) | set(snap):
+                        a, c = old.get(k), snap.get(k)
+                        old[k] = join(a, c) if a is not None and c is not None else TOP
 
     def _emit(self, outs, s, env, keep_tmp=False, cond=None):
         if env.get('$dead'):
